@@ -154,17 +154,19 @@ pub fn units(tier: Tier, seed: u64) -> Vec<Unit> {
     {
         let pool: Vec<VK> = wrappers(2).into_iter().filter(|v| matches!(v, VK::Gte(_) | VK::Lte(_) | VK::Tanh | VK::Sma(_) | VK::Ema(_) | VK::Alma(_) | VK::Cumulative(_) | VK::SuperSmoother(_) | VK::LaguerreFilter(_) | VK::CyberCycle(_) | VK::Roofing(..) | VK::Min(_) | VK::Max(_) | VK::Roc(_) | VK::WelfordRolling | VK::WelfordOnline(_) | VK::Vst(_) | VK::Rsi(_) | VK::MyRSI(_) | VK::CoG(_) | VK::BinaryEntropy(_) | VK::HLNormalizer(_) | VK::TrendFlex(_) | VK::ReFlex(_))).collect();
         let mut seen = std::collections::HashSet::new();
-        let n3 = if q { 30 } else { 300 };
+        let n3 = if q { 24 } else { 300 };
         for i in 0..n3 {
             let (c, b, a) = if i % 6 == 5 { let v = pool[rng.below(pool.len())].clone(); (v.clone(), v.clone(), v) } else { (pool[rng.below(pool.len())].clone(), pool[rng.below(pool.len())].clone(), pool[rng.below(pool.len())].clone()) };
             if !seen.insert((c.name(), b.name(), a.name())) { continue; }
-            let k = (warm(&a) + warm(&b) + warm(&c) + 2).min(9);
+            // quick tier: keep the views whose outputs are nonlinear in the input out of the two inner positions
+            if q && [&a, &b].iter().any(|v| matches!(v, VK::TrendFlex(_) | VK::ReFlex(_) | VK::Vst(_) | VK::WelfordOnline(_) | VK::WelfordRolling | VK::HLNormalizer(_) | VK::Rsi(_) | VK::MyRSI(_) | VK::CoG(_))) { continue; }
+            let k = (warm(&a) + warm(&b) + warm(&c) + 2).min(if q { 7 } else { 9 });
             u.push(unit!(format!("C01/unary3/{} over {} over {}/k={k}", c.name(), b.name(), a.name()), unary3(c.clone(), b.clone(), a.clone(), k)));
         }
     }
     let first_static = u.len();
     let _ = first_static;
-    for x in u.iter_mut() { x.path_cap = 4000; x.budget_s = if q { 8.0 } else { 300.0 }; x.branch_nl_timeout_ms = Some(if q { 250 } else { 1000 }); }
+    for x in u.iter_mut() { x.path_cap = 4000; x.budget_s = if q { 4.0 } else { 40.0 }; x.branch_nl_timeout_ms = Some(if q { 150 } else { 500 }); if q { x.path_cap = 1500; } }
     u.extend(crate::props::c01_static::units(q));
     u
 }
